@@ -215,7 +215,7 @@ def x2(ctx, R, rule="X2"):
         ok = False
         for fct in cfg.facts():
             e, pol = fact_atom(fct)
-            if not (isinstance(e, ast.Call) and isinstance(e.func, ast.Attribute) and "curcommand" in norm(e.func.value)):
+            if not (isinstance(e, ast.Call) and isinstance(e.func, ast.Attribute) and R.an("curcommand") in norm(e.func.value)):
                 continue
             tests = [p for p, _ in fct.pred]
             if not ch_nodes or not all(cfg.dominates(ch_nodes, t, exc=False) for t in tests):
@@ -866,7 +866,7 @@ def x10(ctx, R):
     calls = []
     for c in walk_no_nested(f.node):
         if isinstance(c, ast.Call) and isinstance(c.func, ast.Attribute) and isinstance(c.func.value, ast.Name) \
-                and c.func.value.id == f.params[0] and c.func.attr not in f.cls.methods and "cstate" in c.func.attr:
+                and c.func.value.id == f.params[0] and c.func.attr not in f.cls.methods and R.an("cstate") in c.func.attr:
             calls.append(c)
     if not calls:
         raise AnalysisError("X10", "call through the state-function slot not found")
@@ -888,7 +888,7 @@ def x10(ctx, R):
     # the slot is only ever assigned None or a bound state function
     for g in R.Parser.methods.values():
         for a in walk_no_nested(g.node):
-            if isinstance(a, ast.Assign) and any(isinstance(x, ast.Attribute) and "cstate" in x.attr for x in a.targets):
+            if isinstance(a, ast.Assign) and any(isinstance(x, ast.Attribute) and R.an("cstate") in x.attr for x in a.targets):
                 v = a.value
                 ok = (isinstance(v, ast.Constant) and v.value is None) or (
                     isinstance(v, ast.Attribute) and isinstance(v.value, ast.Name) and v.attr in R.Parser.methods
